@@ -424,9 +424,15 @@ def drv_c09(tier, rng):
     for _ in range(N):
         hist = []
         first = None
+        same = rng.choice(pipeline.METHODS) if rng.random() < 0.6 else None    # histories of one method: shared defaults / prototypes
         for j in range(rng.randint(3, 5)):
-            mth = rng.choice(['majorityHeuristic', 'satisfactionHeuristic', 'aspectEliminationHeuristic', 'weightedSum', 'electreIII', 'owa', 'choquetIntegral'])
+            mth = same or rng.choice(['majorityHeuristic', 'satisfactionHeuristic', 'aspectEliminationHeuristic', 'weightedSum', 'electreIII', 'owa', 'choquetIntegral'])
             req = pipeline.gen_data(rng, mth, extra=rng.choice([0, 0, 1]))
+            if same and j == 0:      # the request that is repeated at the end relies on defaults ...
+                req['methodParameters'].pop('electreDistillation', None)
+                req['methodParameters'].pop('drawResolution', None)
+            elif same == 'electreIII':   # ... the ones in between set the same options explicitly
+                req['methodParameters']['electreDistillation'] = {'a': 0, 'b': rng.choice([P // 8, P // 2, P])}
             if mth in ('majorityHeuristic', 'satisfactionHeuristic') and rng.random() < 0.7:
                 req['methodParameters']['currentChoice'] = rng.choice(req['choseToMake'])
             seq = rng.choice([['fatigue'], ['preferenceReversal'], ['fatigue', 'preferenceReversal'], ['criteriaConcealment', 'fatigue'],
@@ -736,9 +742,9 @@ PROPS = {
             'rule': 'non-trivial = valid parameter set whose real iterator yields >= 2 levels; distinct by parameter set + data set'},
     'C11': {'families': ['majority'], 'nontrivial': nt_majority,
             'rule': 'non-trivial = accepted majority request with >= 3 ranked alternatives and at least one drawn comparison; distinct by request'},
-    'C01': {'families': ['utility', 'majority', 'aspect', 'satisfaction', 'electre'], 'nontrivial': nt_ties,
+    'C01': {'families': ['utility', 'majority', 'aspect', 'satisfaction', 'electre', 'pipeline'], 'cap': {'quick': 1200}, 'nontrivial': nt_ties,
             'rule': 'cases = TLC-enumerated instances + seeded random instances; non-trivial = accepted request whose result has >= 2 entries; distinct by request'},
-    'C03': {'families': ['utility'], 'nontrivial': nt_formula,
+    'C03': {'families': ['utility', 'pipeline'], 'nontrivial': nt_formula,
             'rule': 'non-trivial = accepted utility request with >= 2 criteria (weights/capacities matter); distinct by request'},
     'C04': {'families': ['utility'], 'nontrivial': nt_ties,
             'rule': 'non-trivial = accepted utility request with >= 2 ranked alternatives; distinct by request'},
